@@ -5,6 +5,7 @@ import (
 	"fmt"
 	"io"
 	"os"
+	"strings"
 	"syscall"
 	"unicode/utf8"
 
@@ -138,6 +139,15 @@ type Sink struct {
 	failBeyond4096   bool
 	failAtZero       bool
 	y                *yielder // sched engine: yield before every sink call (nil elsewhere)
+	// stacks W4 / W5: the destination is a caller's util.BufWriter that does NOT remember
+	// errors (see passBW, bufBW). judged: its first failure was reported to goldmark where
+	// goldmark itself can see it - by a Flush call, or by a write made from a node renderer
+	// that looks at the result (the caller's own, see errPropRenderer). Only then do the
+	// clauses of C14 apply; a failure reported to a write whose result the built-in node
+	// renderers discard is lost by design with such a destination (that is what the sticky
+	// error of bufio is relied upon for) and is not judged.
+	nonSticky bool
+	judged    bool
 }
 
 func NewSink(plan *FaultPlan, id uint64) *Sink {
@@ -306,6 +316,122 @@ func (u *unbuf) Flush() error {
 	return u.err
 }
 
+// ---- destinations that do not remember errors (stacks W4, W5) ---------------------------
+
+// checkedMarker is implemented by the non-sticky destinations; a node renderer that looks at
+// the results of its writes brackets them with checked(+1) / checked(-1).
+type checkedMarker interface{ checked(d int) }
+
+// passBW (stack "W4"): an unbuffered pass-through util.BufWriter. Every write goes to the
+// sink and returns the sink's result for THAT call; nothing is remembered; Flush has nothing
+// to do and returns nil.
+type passBW struct {
+	s       *Sink
+	y       *yielder
+	inCheck int
+}
+
+var _ util.BufWriter = (*passBW)(nil)
+
+func (u *passBW) checked(d int) { u.inCheck += d }
+func (u *passBW) put(p []byte) (int, error) {
+	n, err := u.s.Write(p)
+	if n < len(p) && err == nil {
+		err = io.ErrShortWrite
+	}
+	if err != nil && u.s.errCalls == 1 && u.s.firstFail == u.s.calls-1 && u.inCheck > 0 {
+		u.s.judged = true
+	}
+	return n, err
+}
+func (u *passBW) Write(p []byte) (int, error)       { u.y.yield(siteBufW); return u.put(p) }
+func (u *passBW) WriteString(p string) (int, error) { u.y.yield(siteBufW); return u.put([]byte(p)) }
+func (u *passBW) WriteByte(c byte) error {
+	u.y.yield(siteBufW)
+	_, err := u.put([]byte{c})
+	return err
+}
+func (u *passBW) WriteRune(r rune) (int, error) {
+	u.y.yield(siteBufW)
+	var b [utf8.UTFMax]byte
+	n := utf8.EncodeRune(b[:], r)
+	return u.put(b[:n])
+}
+func (u *passBW) Available() int { return 4096 }
+func (u *passBW) Buffered() int  { return 0 }
+func (u *passBW) Flush() error   { u.y.yield(siteBufW); return nil }
+
+// bufBW (stacks "W5:<size>", "W5d:<size>", "W5p:<size>"): a buffering util.BufWriter of the
+// caller's own that does not remember errors. A write that fills the buffer hands it to the
+// sink and returns that hand-over's error (to that write only); Flush hands over what is
+// pending and returns the error. After a failed hand-over the bytes that were not accepted
+// stay pending ("W5", "W5p") or are given up ("W5d"). "W5p": a page header is already pending
+// when goldmark is called.
+type bufBW struct {
+	s       *Sink
+	y       *yielder
+	buf     []byte
+	size    int
+	drop    bool
+	inCheck int
+}
+
+var _ util.BufWriter = (*bufBW)(nil)
+
+func (u *bufBW) checked(d int) { u.inCheck += d }
+func (u *bufBW) handOver(fromFlush bool) error {
+	if len(u.buf) == 0 {
+		return nil
+	}
+	n, err := u.s.Write(u.buf)
+	if n < len(u.buf) && err == nil {
+		err = io.ErrShortWrite
+	}
+	if err != nil && u.s.errCalls == 1 && u.s.firstFail == u.s.calls-1 && (fromFlush || u.inCheck > 0) {
+		u.s.judged = true
+	}
+	if err != nil && u.drop {
+		n = len(u.buf)
+	}
+	u.buf = u.buf[:copy(u.buf, u.buf[n:])]
+	return err
+}
+func (u *bufBW) put(p []byte) (int, error) {
+	total := 0
+	for len(p) > 0 {
+		room := u.size - len(u.buf)
+		if room == 0 {
+			if err := u.handOver(false); err != nil {
+				return total, err
+			}
+			continue
+		}
+		if room > len(p) {
+			room = len(p)
+		}
+		u.buf = append(u.buf, p[:room]...)
+		p = p[room:]
+		total += room
+	}
+	return total, nil
+}
+func (u *bufBW) Write(p []byte) (int, error)       { u.y.yield(siteBufW); return u.put(p) }
+func (u *bufBW) WriteString(p string) (int, error) { u.y.yield(siteBufW); return u.put([]byte(p)) }
+func (u *bufBW) WriteByte(c byte) error {
+	u.y.yield(siteBufW)
+	_, err := u.put([]byte{c})
+	return err
+}
+func (u *bufBW) WriteRune(r rune) (int, error) {
+	u.y.yield(siteBufW)
+	var b [utf8.UTFMax]byte
+	n := utf8.EncodeRune(b[:], r)
+	return u.put(b[:n])
+}
+func (u *bufBW) Available() int { return u.size - len(u.buf) }
+func (u *bufBW) Buffered() int  { return len(u.buf) }
+func (u *bufBW) Flush() error   { u.y.yield(siteBufW); return u.handOver(true) }
+
 // yieldingBuf is a caller-supplied bufio.Writer (stack W2) whose every method is a yield
 // point in the sched engine. Outside it, the bare *bufio.Writer is used.
 type yieldingBuf struct {
@@ -391,6 +517,26 @@ func mkStack(name string, s *Sink, y *yielder) io.Writer {
 		return &bufferSink{s}
 	case name == "W3":
 		return &unbuf{s: s, y: y}
+	case name == "W4":
+		s.nonSticky = true
+		return &passBW{s: s, y: y}
+	case len(name) > 3 && name[:2] == "W5":
+		size := 0
+		i := strings.IndexByte(name, ':')
+		if i < 0 {
+			panic("bad stack " + name)
+		}
+		fmt.Sscanf(name[i+1:], "%d", &size)
+		if size <= 0 {
+			panic("bad stack " + name)
+		}
+		s.nonSticky = true
+		b := &bufBW{s: s, y: y, size: size, drop: name[:i] == "W5d"}
+		if name[:i] == "W5p" {
+			s.prefix = []byte("<!-- page head -->\n")
+			_, _ = b.put(s.prefix)
+		}
+		return b
 	case len(name) > 4 && name[:4] == "W2p:":
 		// the caller is assembling a page in its own bufio.Writer: a header is already pending
 		// in the buffer when goldmark is called
@@ -434,6 +580,10 @@ func genStack(r *Rng) string {
 			return fmt.Sprintf("W2k:%d", pick(r, []int{64, 4096}))
 		}
 		return fmt.Sprintf("W2:%d", pick(r, w2Sizes))
+	}
+	if g := NewRng(r.Next()); g.Chance(1, 4) {
+		// a caller's BufWriter that does not remember errors
+		return pick(g, []string{"W4", "W4", fmt.Sprintf("W5:%d", pick(g, []int{16, 64, 4096})), fmt.Sprintf("W5d:%d", pick(g, []int{16, 64})), fmt.Sprintf("W5p:%d", pick(g, []int{16, 64, 4096}))})
 	}
 	return "W3"
 }
